@@ -1,14 +1,34 @@
 import Sbepp.Drive.Common
 import Sbepp.Extracted.Kernels
 import Sbepp.Spec.Bits
+import Sbepp.Lemmas.Bits
 
 namespace Sbepp.Drive.C15
 open Sbepp Sbepp.Drive Sbepp.Extracted
 
 /-- `bits op=get|set T=u8 v=.. n=.. [b=0|1]`  →  `model=<kernel> spec=<spec>`
     `bits op=getsum|setsum T=.. n=.. [b=..] lo=.. hi=..` → weighted checksums over v ∈ [lo,hi) -/
+def parseOps? (s : String) : Option (List (Nat × Bool)) :=
+  (s.splitOn ",").mapM (fun item =>
+    match item.splitOn ":" with
+    | [n, b] => match parseNat? n, parseNat? b with
+      | some n, some b => some (n, b != 0)
+      | _, _ => none
+    | _ => none)
+
+/-- `bits op=seq T=.. v=.. n=0 ops=n:b,n:b,...` → the whole history through the
+    kernel (`runSets`) and through the specification (fold of `Spec.setBit`) -/
+def handleSeq (t : CTy) (args : List String) : String :=
+  match natArg? args "v", (arg? args "ops").bind parseOps? with
+  | some v, some ops =>
+    let m := runSets t v ops
+    let s := ops.foldl (fun acc p => Spec.setBit acc p.1 p.2) v
+    s!"model={fmtOpt m} spec={s}"
+  | _, _ => "bad-op"
+
 def handle (args : List String) : String :=
   match arg? args "op", tyArg? args "T", natArg? args "n" with
+  | some "seq", some t, some _ => handleSeq t args
   | some "get", some t, some n =>
     match natArg? args "v" with
     | some v =>
